@@ -24,3 +24,9 @@ def run(F, rep):
     rep.run(dt_msp.piece_closure_table, F, rep, "C04.4")
     rep.run(dt_msp.slice_bounds_tables, F, rep, "C04.4")
     rep.run(dt_msp.score_closure_tables, F, rep, "C04.4")
+    # per-shard pruning keeps links that leave the shard and links to valid k-mers (incl. a k-mer's link to itself); re-compression resolves
+    # links through find_link / get_valid_exts under the graph's strandedness
+    rep.run(dt_graph.censor_tables, F, rep, "C04.5")
+    rep.run(dt_graph.find_link_table, F, rep, "C04.6")
+    rep.run(dt_graph.get_valid_exts_table, F, rep, "C04.6")
+    rep.run(dt_graph.fix_exts_table, F, rep, "C04.6")
